@@ -6,6 +6,7 @@ from .mir import Mir, source_hash, MirParseError
 
 VERIF = os.path.dirname(os.path.dirname(os.path.abspath(__file__)))
 REPO = os.environ.get('VERIF_REPO', '/repo')
+OUT = os.environ.get('VERIF_OUT') or None   # self-test only: where evidence/replays go when a scratch copy is checked (never used by registered commands)
 CACHE = os.path.join(VERIF, '.cache')
 NIGHTLY = 'nightly'
 
@@ -21,7 +22,10 @@ def dump_mir(features=''):
     h = source_hash(REPO)
     tag = h + ('-' + features.replace(',', '_') if features else '')
     out = os.path.join(CACHE, 'mir', tag + '.mir')
-    if os.path.exists(out) and os.path.getsize(out) > 100000: return out, h, 0.0
+    if os.path.exists(out) and os.path.getsize(out) > 100000:
+        try: os.utime(out)
+        except OSError: pass
+        return out, h, 0.0
     lock = open(os.path.join(CACHE, 'mir', 'lock-' + (features or 'default')), 'w')
     fcntl.flock(lock, fcntl.LOCK_EX)
     try:
@@ -45,11 +49,13 @@ def dump_mir(features=''):
             os.replace(tmp, out)
         finally:
             shutil.rmtree(scratch, ignore_errors=True)
-        # keep the cache small: drop dumps of other trees
+        # keep the cache small: drop dumps of other trees that have not been used for an hour (a concurrent check of another tree may still read its dump)
         keep = {os.path.basename(out)}
         for f in sorted(os.listdir(os.path.join(CACHE, 'mir'))):
+            fp = os.path.join(CACHE, 'mir', f)
             if f.endswith('.mir') and f not in keep and not f.startswith(h):
-                try: os.remove(os.path.join(CACHE, 'mir', f))
+                try:
+                    if time.time() - os.path.getmtime(fp) > 3600: os.remove(fp)
                 except OSError: pass
         return out, h, time.time() - t0
     finally:
@@ -93,13 +99,18 @@ class Report:
     def check(self, name, constraints, timeout_ms=None, key=None, describe=None, want='unsat'):
         """discharge one SMT obligation: `constraints` (the negated property) must be unsat.
         returns ('holds'|'violated'|'unknown', model-or-None)"""
-        s = z3.Solver(); s.set('timeout', timeout_ms or (120000 if self.tier == 'quick' else 600000))
-        s.add(*[c for c in constraints if c is not True])
-        if any(c is False for c in constraints):
-            r = z3.unsat
-        else:
-            t0 = time.time(); r = s.check(); dt = time.time() - t0; self.solver_s += dt
-        dt = locals().get('dt', 0.0)
+        total = timeout_ms or (120000 if self.tier == 'quick' else 600000)
+        cons = [c for c in constraints if c is not True]
+        if any(c is False for c in cons): self.holds(name, 0.0); return 'holds', None
+        # small portfolio inside the time budget: non-linear real queries are sensitive to the solver's random choices, so an attempt that
+        # does not finish in a quarter of the budget is restarted with another seed (verdicts are only ever taken from sat/unsat answers)
+        dt = 0.0
+        for (seed, share) in ((0, 0.25), (7, 0.25), (23, 0.5)):
+            s = z3.Solver(); s.set('timeout', max(1000, int(total * share)))
+            if seed: s.set('random_seed', seed)
+            s.add(*cons)
+            t0 = time.time(); r = s.check(); d1 = time.time() - t0; self.solver_s += d1; dt += d1
+            if r != z3.unknown: break
         if r == z3.unsat:
             self.holds(name, dt); return 'holds', None
         if r == z3.sat:
@@ -133,7 +144,8 @@ def finish(rep, level='model_checking', technique=''):
     known = [k for k in load_known() if k.get('property') == rep.pid and k.get('status') == 'known']
     exit_code = 0
     new_violations = []
-    os.makedirs(os.path.join(VERIF, 'replays', rep.pid), exist_ok=True)
+    OUTD = OUT or VERIF
+    os.makedirs(os.path.join(OUTD, 'replays', rep.pid), exist_ok=True)
     seen = set()
     for v in rep.violations:
         if v['key'] in seen: continue
@@ -142,7 +154,7 @@ def finish(rep, level='model_checking', technique=''):
         if k is not None:
             print('KNOWN-FINDING: property=%s %s' % (rep.pid, k.get('what', v['description'])))
             continue
-        path = os.path.join(VERIF, 'replays', rep.pid, _safe(v['key']) + '.json')
+        path = os.path.join(OUTD, 'replays', rep.pid, _safe(v['key']) + '.json')
         with open(path, 'w') as f:
             json.dump({'property': rep.pid, 'obligation': v['name'], 'key': v['key'], 'description': v['description'],
                        'model': v['model'], 'native_replay': v['native'], 'extra': v['extra'], 'mir_source_hash': rep.mir_hash}, f, indent=1, default=str)
@@ -172,8 +184,8 @@ def finish(rep, level='model_checking', technique=''):
         },
         'assumptions': rep.assumptions, 'wall_s': round(wall, 2), 'violations': len(new_violations),
     }
-    os.makedirs(os.path.join(VERIF, 'evidence'), exist_ok=True)
-    with open(os.path.join(VERIF, 'evidence', rep.pid + '.json'), 'w') as f: json.dump(ev, f, indent=1, default=str)
+    os.makedirs(os.path.join(OUTD, 'evidence'), exist_ok=True)
+    with open(os.path.join(OUTD, 'evidence', rep.pid + '.json'), 'w') as f: json.dump(ev, f, indent=1, default=str)
     for v, path in new_violations:
         print('VIOLATION property=%s replay=%s' % (rep.pid, path)); print('  ' + v['description'])
         exit_code = 1
